@@ -324,6 +324,7 @@ def check_twin_edit(sh, doc, rng):
     """'rendering has no side effects ... leaves later renderings unchanged': one database is rendered, its twin is not; the
     same in-place edit is applied to both; both renderings of the two must then be identical"""
     db, twin = apibuild.build(doc, api_inline=True), apibuild.build(doc, api_inline=True)
+    tb, tw = list(db.tables), list(twin.tables)        # pairs taken now (positions in db.tables are not trusted after a rendering)
     try:
         db.sql, db.dbml
         for t in db.tables:
@@ -336,16 +337,16 @@ def check_twin_edit(sh, doc, rng):
             r.type = r2.type = '<' if r.type == '>' else '>'
             edits.append('flip-kind')
         elif rng.random() < 0.3 and len(r.col1) == 1 and len(db.tables) >= 3:
-            cands = [(ti, ci) for ti, t in enumerate(db.tables) if t is not r.col1[0].table and t is not r.col2[0].table for ci in range(len(t.columns))]
+            cands = [(ti, ci) for ti, t in enumerate(tb) if t is not r.col1[0].table and t is not r.col2[0].table for ci in range(len(t.columns))]
             if cands:
                 ti, ci = rng.choice(cands)
-                n1 = [db.tables[ti].columns[ci]]
+                n1 = [tb[ti].columns[ci]]
                 if not any(q is not r and q.type == r.type and list(q.col1) == n1 and list(q.col2) == list(r.col2) for q in db.refs):
-                    r.col1, r2.col1 = n1, [twin.tables[ti].columns[ci]]
+                    r.col1, r2.col1 = n1, [tw[ti].columns[ci]]
                     edits.append('reassign-endpoint')
     if db.tables and rng.random() < 0.5:
-        k_ = rng.randrange(len(db.tables))
-        db.tables[k_].name = twin.tables[k_].name = db.tables[k_].name + 'Twq'
+        k_ = rng.randrange(len(tb))
+        tb[k_].name = tw[k_].name = tb[k_].name + 'Twq'
         edits.append('rename')
     if not edits:
         return
